@@ -43,7 +43,10 @@ fn gen_job(rng: &mut Rng, id: u32) -> Job {
     match rng.below(10) {
         0..=3 => {
             let mut headers = vec![];
-            for _ in 0..rng.below(7) {
+            // (one request in five carries dozens of header lines: sorting and hashing behave
+            // differently above a few entries)
+            let n_headers = if rng.chance(1, 5) { rng.range(12, 48) } else { rng.below(7) };
+            for _ in 0..n_headers {
                 let nv = if rng.chance(1, 3) { rng.range(2, 5) } else { 1 };
                 headers.push(HeaderJob {
                     name: format!("x-{}", token(rng)),
@@ -444,28 +447,44 @@ fn main() {
         let mut rng = Rng::derive(seed, c, 111);
         let mut gc = if args.thorough() { GenCfg::thorough() } else { GenCfg::quick() };
         gc.event_then = true;
+        // one program in three runs through the capability API (legacy executor: tasks that spawn
+        // tasks, yield and wait side by side, so that freshly spawned and woken tasks are runnable
+        // in the same pass)
+        let legacy = c % 3 == 2;
+        if legacy {
+            gc.legacy = true;
+            gc.event_then = false;
+            gc.script_weight = gc.script_weight.max(30);
+        }
         let program = Gen::new(&mut rng, gc).program();
         let cfg = RunCfg {
             drop: false,
             reresolve: false,
+            abort: !legacy,
             ..RunCfg::default_for(rng.range(4, 25) as usize)
         };
+        let n_replays = if legacy { 8 } else { 4 };
+        let mode = if legacy { Mode::LEGACY } else { Mode::CORE };
         // first run generates the history, the others replay it; the observations (ordered) must be identical
         let mut runs: Vec<String> = vec![];
         let mut actions = vec![];
         wd.begin(|| json!({"lane": "detlab-programs", "program": program}).to_string());
         let res = vcommon::trap(|| {
-            for i in 0..4 {
-                let mut hosts = vec![
-                    HostSlot::new(Box::new(TracingHost::new(Box::new(CoreHost::<cmdlab::ops::AppM>::new(false)))), 0),
-                    HostSlot::new(Box::new(TracingHost::new(Box::new(BridgeHost::<cmdlab::ops::AppD>::new(Wire::Bincode)))), 0),
-                ];
+            for i in 0..n_replays {
+                let mut hosts = if legacy {
+                    vec![HostSlot::new(Box::new(TracingHost::new(Box::new(CoreHost::<cmdlab::ops::AppD>::new(true)))), 0)]
+                } else {
+                    vec![
+                        HostSlot::new(Box::new(TracingHost::new(Box::new(CoreHost::<cmdlab::ops::AppM>::new(false)))), 0),
+                        HostSlot::new(Box::new(TracingHost::new(Box::new(BridgeHost::<cmdlab::ops::AppD>::new(Wire::Bincode)))), 0),
+                    ]
+                };
                 let out = if i == 0 {
-                    let o = run_case(&program, &mut hosts, &[Mode::CORE], &mut rng, &cfg, None);
+                    let o = run_case(&program, &mut hosts, &[mode], &mut rng, &cfg, None);
                     actions = o.actions.clone();
                     o
                 } else {
-                    run_case(&program, &mut hosts, &[Mode::CORE], &mut Rng::new(1), &cfg, Some((&actions, None)))
+                    run_case(&program, &mut hosts, &[mode], &mut Rng::new(1), &cfg, Some((&actions, None)))
                 };
                 let _ = out;
                 runs.push(TRACE.lock().unwrap().drain(..).collect::<Vec<_>>().join("\n"));
@@ -474,7 +493,10 @@ fn main() {
         wd.end();
         let mut r = report.lock().unwrap();
         r.eval();
-        r.count("program_replays", 4);
+        r.count("program_replays", n_replays as u64);
+        if legacy {
+            r.count("capability_api_program_replays", n_replays as u64);
+        }
         match res {
             Ok(()) => {
                 if runs.windows(2).all(|w| w[0] == w[1]) {
@@ -483,9 +505,9 @@ fn main() {
                     }
                 } else {
                     r.violation(
-                        "replay-differs/in-process/command-program",
-                        "the ordered observations of a command program differ between replays of one history",
-                        json!({"lane": "detlab-programs", "program": program, "actions": actions}),
+                        if legacy { "replay-differs/in-process/capability-api-program" } else { "replay-differs/in-process/command-program" },
+                        "the ordered observations of a program differ between replays of one history",
+                        json!({"lane": "detlab-programs", "legacy": legacy, "program": program, "actions": actions}),
                     );
                 }
             }
